@@ -2,7 +2,7 @@
 # Build the harness inside /repo's module through an overlay; cache by content hash of the tree.
 set -e
 export GOFLAGS=-mod=mod GOPROXY=off GOSUMDB=off GOTOOLCHAIN=local CGO_ENABLED=1
-V=/verif
+V=${VERIF_ROOT:-/verif}
 OUT=$V/.build
 mkdir -p $OUT
 H=$( (cd /repo && find . -name '*.go' ! -name '*_test.go' -not -path './zz_verif_harness/*' -print0 | sort -z | xargs -0 sha256sum; sha256sum go.mod go.sum) ; (cd $V/harness && sha256sum *.go) )
@@ -11,10 +11,12 @@ BIN=$OUT/sgeh-$HASH
 if [ ! -x "$BIN" ]; then
   rm -f $OUT/sgeh-*
   OV=$OUT/overlay.json
-  python3 - "$OV" <<'PY'
+  VERIF_ROOT=$V python3 - "$OV" <<'PY'
 import json,sys,glob,os
 rep={}
-for f in glob.glob('/verif/harness/*.go'):
+import os as _o
+V=_o.environ.get('VERIF_ROOT','/verif')
+for f in glob.glob(V+'/harness/*.go'):
     rep['/repo/zz_verif_harness/'+os.path.basename(f)]=f
 json.dump({"Replace":rep},open(sys.argv[1],'w'))
 PY
